@@ -13,7 +13,7 @@ REPO_SRC = repo_src()
 class Contract(object):
     def __init__(self, module, qualname, params, returns=None, requires=(), ensures=(), loops=None, pure=True, modifies=(),
                  theories=('word',), decreases=(), types=None, ghost=None, defaults=None, props=(), symbol_is_regexp=False,
-                 hints=None, bounded=None, note='', variant='', asserts=(), verify=True, pre_return_asserts=(), result_shares=None):
+                 hints=None, bounded=None, note='', variant='', asserts=(), verify=True, pre_return_asserts=(), result_shares=None, type_invariants=()):
         self.module, self.qualname = module, qualname
         self.variant = variant
         self.key = qualname + ('[%s]' % variant if variant else '')
@@ -32,6 +32,9 @@ class Contract(object):
         self.props = list(props)
         self.symbol_is_regexp = symbol_is_regexp
         self.hints = hints or {}
+        # facts true of every Python value of the parameter types (e.g. "a set object is finite"): assumed at entry, never a proof
+        # obligation of callers (they are not preconditions); listed as assumptions in the evidence
+        self.type_invariants = list(type_invariants)
         # {field: place}: the result's field is (possibly) the very object held in `place` (e.g. {'Sigma': 'self.Sigma'}), a mutable set that
         # later calls of methods of the same object only ever enlarge.  Values obtained earlier are then re-read with an enlarged field.
         self.result_shares = dict(result_shares or {})
